@@ -205,7 +205,8 @@ class Model:
         """documents WITH text and attributes through the extracted DocValTables.vrun.
         docs: nested {'tag', 'text' (str), 'attrs' [[name, text]], 'kids'}; floats: {text: None | (kind, num, den, repr)} = what Python's float() made of
         every text / attribute value occurring in the documents.  Returns per doc ('NOMACHINE', tag) | (premise, 'NOPARSE') | (premise, 'NOEMIT') |
-        (premise, 'OK', nested [tag, text, [[name, value]], kids])"""
+        (premise, 'OK', nested [tag, text, [[name, value]], kids]);
+        premise: 2 = of C09_document_values, 1 = of C09_document_values_general only, 0 = neither"""
         def cps(s):
             return ','.join(str(ord(c)) for c in s) or '-'
 
@@ -254,7 +255,7 @@ class Model:
                 out.append(('NOMACHINE', self.name_of[int(l.split()[1])]))
                 continue
             toks = l.split()
-            prem = toks[0] == '1'
+            prem = int(toks[0])
             if toks[1] in ('NOPARSE', 'NOEMIT'):
                 out.append((prem, toks[1]))
             else:
